@@ -101,6 +101,17 @@ func genH(t *rapid.T) (HCase, *env.Env) {
 	if c.T2 <= c.T1 {
 		c.T2 = c.T1 + 1
 	}
+	hasOffset := false
+	for _, x := range c.Cfg.Extra {
+		hasOffset = hasOffset || strings.HasPrefix(x, "timeoffset_")
+	}
+	if c.Periods == 0 && !hasOffset && rapid.IntRange(0, 7).Draw(t, "stop?") == 0 {
+		// the presentation stops between the two instants: the MPD of t2 is static
+		stopS := (c.T1 + (c.T2-c.T1)/2) / 1000
+		if stopS*1000 > c.T1 && stopS*1000 < c.T2 && stopS > c.Cfg.StartS {
+			c.Cfg.Extra = append(c.Cfg.Extra, "stop_"+strconv.FormatInt(stopS, 10))
+		}
+	}
 	return c, e
 }
 
@@ -418,7 +429,7 @@ func genTree(t *rapid.T) TreeCase {
 	}
 	for e := 0; e < nEd; e++ {
 		ps := periods()
-		switch rapid.SampledFrom([]string{"s-append", "s-append", "s-drop-first", "s-drop-first", "s-repeat", "s-insert-mid", "attr-change", "attr-add", "attr-remove", "period-append", "period-drop-first", "as-add", "rep-add", "rep-remove", "leaf-text"}).Draw(t, "edit") {
+		switch rapid.SampledFrom([]string{"s-append", "s-append", "s-drop-first", "s-drop-first", "s-repeat", "s-insert-mid", "attr-change", "attr-add", "attr-remove", "period-append", "period-drop-first", "as-add", "rep-add", "rep-remove", "leaf-text", "noid-remove", "noid-add"}).Draw(t, "edit") {
 		case "s-append", "s-drop-first", "s-repeat", "s-insert-mid":
 			if len(ps) == 0 {
 				continue
@@ -508,9 +519,14 @@ func genTree(t *rapid.T) TreeCase {
 				last++
 			}
 			np := genPeriod(t, last, &asID)
-			// insert before UTCTiming
-			idx := len(nw.kids) - 1
-			nw.kids = append(nw.kids[:idx], append([]*tnode{np}, nw.kids[idx:]...)...)
+			// insert after the last Period (before the trailing UTCTiming elements, if any are left)
+			idx := 0
+			for i, k := range nw.kids {
+				if k.name == "Period" || k.name == "PatchLocation" {
+					idx = i + 1
+				}
+			}
+			nw.kids = append(nw.kids[:idx:idx], append([]*tnode{np}, nw.kids[idx:]...)...)
 		case "period-drop-first":
 			if len(ps) > 1 {
 				for i, k := range nw.kids {
@@ -548,6 +564,18 @@ func genTree(t *rapid.T) TreeCase {
 				}
 				break
 			}
+		case "noid-remove":
+			// an element without id (addressed by position among its same-named siblings) disappears, e.g. the PatchLocation
+			// and UTCTiming of an MPD that turns static
+			which := rapid.SampledFrom([]string{"UTCTiming", "UTCTiming", "PatchLocation"}).Draw(t, "noid")
+			for i := len(nw.kids) - 1; i >= 0; i-- {
+				if nw.kids[i].name == which {
+					nw.kids = append(nw.kids[:i:i], nw.kids[i+1:]...)
+					break
+				}
+			}
+		case "noid-add":
+			nw.kids = append(nw.kids, &tnode{name: "UTCTiming", attrs: [][2]string{{"schemeIdUri", "urn:mpeg:dash:utc:http-iso:2014:" + strconv.Itoa(e)}, {"value", "https://time.example/iso" + strconv.Itoa(e)}}}) // unique scheme: such elements are addressed by it
 		case "leaf-text":
 			for _, k := range nw.kids {
 				if k.name == "UTCTiming" {
